@@ -33,6 +33,9 @@ def run(ctx):
                     readcheck.check_ops(ctx, None, s, hops, props=('C14', 'C02'), cold=False, tag='after-header-read')
             finally:
                 s.close()
+        # K: virtual files beyond 4 GiB with arguments just outside the extent and at 2^31 / 2^32 (+ extent)
+        from .. import hugecheck
+        hugecheck.run(ctx, model, gen.rng_for(ctx.seed, 'c14-huge'), blob_too=False, wide=False, beyond=True)
     finally:
         model.close()
     # K: the header-read state machine (Model/HeaderReads) on histories with ordinals at and beyond the trace count / grid
